@@ -6,38 +6,14 @@ open V V.Driver V.WellKnown V.Json
 
 def unhexStr (s : String) : Option WellKnown.Str := (unhex s).map (fun b => (bytesStr b).toList)
 
-/-- Go's encoding/json `foldName` on a key: ASCII letters to upper case, U+017F (ſ) to S, U+212A (K) to K. -/
-def foldBytes : Bytes → Bytes
-  | 0xC5 :: 0xBF :: rest => 0x53 :: foldBytes rest
-  | 0xE2 :: 0x84 :: 0xAA :: rest => 0x4B :: foldBytes rest
-  | c :: rest => (if 0x61 ≤ c && c ≤ 0x7A then c - 0x20 else c) :: foldBytes rest
-  | [] => []
-
-def mServerKey : Bytes := strBytes "m.server"
-
-/-- json.Unmarshal(body, &struct{ NewAddress spec.ServerName `json:"m.server"` }) — modelled, not verified
-    (trusted base: encoding/json): syntax = VModel.Json.parse; a top-level `null` decodes to nothing; any
-    other non-object is a type error; members are read in document order, a key matches exactly or
-    after case folding, a string value is stored, `null` leaves the field, anything else is a type
-    error (decoding goes on, the call fails at the end). -/
+/-- `json.Unmarshal(body, &map[string]json.RawMessage)` + `json.Unmarshal(document["m.server"], &string)` — modelled,
+    not verified (trusted base: encoding/json): syntax = VModel.Json.parse, then VModel.WellKnown.decodeDoc (only a
+    member whose key is EXACTLY `m.server` counts).  `none`: invalid UTF-8 / lone surrogates inside strings, whose
+    replacement rules are not modelled. -/
 def decodeGo (body : Bytes) : Option Decoded :=
   match parse body with
   | none => some .error
-  | some p =>
-    if !p.wellFormed then none    -- invalid UTF-8 / lone surrogates inside strings: replacement rules not modelled
-    else match p with
-    | .null => some (.ok [])
-    | .obj kvs =>
-      let (addr, err) := kvs.foldl (fun (acc : Bytes × Bool) kv =>
-        let (_, key, v) := kv
-        if key == mServerKey || foldBytes key == foldBytes mServerKey then
-          match v with
-          | .str _ dec => (dec, acc.2)
-          | .null => acc
-          | _ => (acc.1, true)
-        else acc) ([], false)
-      some (if err then .error else .ok addr)
-    | _ => some .error
+  | some p => if !p.wellFormed then none else some (decodeDoc p)
 
 /-- body descriptor `<hx prefix>+<n>x<hx byte>+<hx suffix>` -/
 def parseBody (s : String) : Option Bytes :=
@@ -60,36 +36,49 @@ def showWKErr : WKErr → String
 /-- expiry as the harness canonicalises it: relative to the clock when it came from max-age -/
 def showExpiry (abs : Bool) (v : Int) : String := (if abs then "abs:" else "rel:") ++ toString v
 
+/-- `<hx line>|<hx line>…` (several header lines) or `-` -/
+def parseLines (s : String) : Option (List WellKnown.Str) :=
+  if s == "-" then some [] else (s.splitOn "|").mapM unhexStr
+
 /-- ops:
-    lookup <mode> <status> <hx content-length> <hx cache-control> <hx expires> <expires parsed: x|int> <body descr> <abs candidates>
+    lookup <mode> <status> <hx content-length> <cache-control lines> <hx expires> <expires parsed: x|int> <body descr> <abs candidates>
        -> ok:<hx m.server>:<abs:<unix>|rel:<seconds from now>> | err:status | err:size | err:decode | err:noserver
+    `<cache-control lines>` = `-` | `<hx line>|<hx line>…`: one hex text per `Cache-Control` header line of the reply.
     The model is run with now = 0, so a max-age lifetime comes out relative to the call time, which is
     how the harness prints it (CacheExpiresAt - time of call).
+    Specification stream: honoured ONLY IF status 200, at most 50 KiB and the document NAMES AN m.server (a member
+    whose key is exactly `m.server`, a non-empty string: `Spec.namesServer`), to THAT name, with the lifetime taken from
+    max-age — on whichever Cache-Control line it stands — in preference to Expires.  Refusing is always allowed.
 -/
 def handle (op : String) (args : Array String) : Option String :=
   match op, args.toList with
   | "lookup", [_mode, status, cl, cc, ex, exParsed, bodyD, _cands] =>
-    match status.toNat?, unhexStr cl, unhexStr cc, unhexStr ex, parseBody bodyD with
-    | some st, some cl, some cc, some ex, some body =>
+    match status.toNat?, unhexStr cl, parseLines cc, unhexStr ex, parseBody bodyD with
+    | some st, some cl, some ccLines, some ex, some body =>
       let expiresTime : Option Int := if exParsed == "x" then none else exParsed.toInt?
-      let r : Reply := ⟨st, cl, cc, ex, body⟩
+      -- resp.Header.Values("Cache-Control"): every line
+      let r : Reply := ⟨st, cl, ccLines, ex, body⟩
       -- decode is evaluated once on the bytes actually read
       let read := body.take (maxSize + 1)
       match (if read.length > maxSize then some Decoded.error else decodeGo read) with
       | none => some "skip:ill-formed-unicode-in-body"
       | some d =>
         let res := lookup r 0 expiresTime (fun _ => d)
-        let usedMaxAge := (Spec.maxAge cc).isSome
+        let usedMaxAge := (Spec.maxAge (joinComma r.cacheControl)).isSome
         let m := match res with
           | .error e => showWKErr e
           | .ok w => "ok:" ++ hex w.newAddress ++ ":" ++ showExpiry (!usedMaxAge) w.cacheExpiresAt
-        -- specification: honoured only if status 200, at most 50 KiB, names an m.server; lifetime from
-        -- max-age in preference to Expires
-        let honourable := st == 200 && body.length ≤ 51200 && (match d with | .ok a => !a.isEmpty | .error => false)
+        -- specification
+        let doc := if body.length ≤ 51200 then parse body else none
+        let named : Option Bytes := doc.bind Spec.namesServer
+        let rSpec : Reply := r
+        let specMaxAge := (Spec.maxAgeLines ccLines).isSome
+        if (doc.map Spec.dupServer).getD false then some (m ++ "\tunspecified:several-m.server-members") else
         let s := match res with
-          | .ok w =>
-            if honourable then "ok:" ++ hex w.newAddress ++ ":" ++ showExpiry (!usedMaxAge) (Spec.lifetime r 0 expiresTime)
-            else "err:must-refuse"
+          | .ok _ =>
+            match (if st == 200 then named else none) with
+            | some a => "ok:" ++ hex a ++ ":" ++ showExpiry (!specMaxAge) (Spec.lifetime rSpec 0 expiresTime)
+            | none => "err:must-refuse"
           | .error e => showWKErr e      -- refusing is always allowed by "honoured only if"
         some (m ++ "\t" ++ s)
     | _, _, _, _, _ => some "bad-op"
